@@ -5,6 +5,9 @@ Streams
   entry   : CallableValue(sig_exp).can_assign(KnownValue(g)), KnownValue(f).can_assign(KnownValue(g)),
             UnboundMethodValue(m of a class).can_assign(KnownValue(g))                           == model acc
   hier, mro: class hierarchies through the override route (harness/props/c07_hier.py)
+  obtain, effective: the actual callable obtained as bound method / via the class / staticmethod / classmethod /
+            __call__ instance / constructor / property / nested def / lambda, own or inherited, offered in five
+            expected forms (harness/props/c07_obtain.py)
   proto   : `x: P = g` with a Protocol `__call__` checked by pyanalyze (incompatible_assignment)  == model acc
   override: a method overriding a base-class method (incompatible_override)                      == model acc
   overload: OverloadedSignature on either side                                                   == model ovCanAssign
@@ -27,7 +30,7 @@ PROP = "C07"
 NAMESPACE = "Pya.C07"
 LEAN_PROP = "PyaModel.Props.C07"
 LEAN_TARGETS = ["PyaModel.Spec.SigAssignSpec", "PyaModel.Spec.OverrideSpec", "PyaModel.Generated.SigTypes",
-                "PyaModel.Generated.SigRoutes"]
+                "PyaModel.Generated.SigRoutes", "PyaModel.Generated.AttrUnwrap", "PyaModel.Core.Obtain"]
 ANCHORS = [
     ("pyanalyze/signature.py", "Signature.can_assign"),
     ("pyanalyze/signature.py", "OverloadedSignature.can_assign"),
@@ -41,6 +44,8 @@ ANCHORS = [
     ("pyanalyze/name_check_visitor.py", "NameCheckVisitor._can_assign_to_base"),
     ("pyanalyze/name_check_visitor.py", "NameCheckVisitor._can_assign_to_base_property"),
     ("pyanalyze/signature.py", "Signature.bind_self"),
+    ("pyanalyze/attributes.py", "_unwrap_value_from_typed"),
+    ("pyanalyze/attributes.py", "_get_attribute_from_mro"),
 ]
 RULE = (
     "pairs (expected, actual) of def headers: exhaustive over all headers with <= N parameters (all kind sequences "
@@ -54,7 +59,12 @@ RULE = (
     "three bases, diamonds, random DAGs; both orders of the bases), 1-2 attributes, each bound as method / "
     "staticmethod / property in a random subset of the classes, headers drawn from the signature generator with the "
     "override drawn near one of the ancestors' headers; EVERY class of the hierarchy that binds the attribute is a "
-    "case, judged against EVERY ancestor in its real __mro__ that binds it"
+    "case, judged against EVERY ancestor in its real __mro__ that binds it. Obtain stream: for seeded pairs "
+    "(expected, def header) the actual callable is obtained in 27 ways (module def, nested def, lambda, bound method, "
+    "function through the class, staticmethod / classmethod through instance and class, __call__ instance, "
+    "constructor, property returning a function; defined on the class or inherited 1-2 levels) and offered in up to "
+    "five expected forms (CallableValue, Literal[function], Protocol __call__, Callable[[..], R] parameter, protocol "
+    "method); the really obtained object is called with every call shape the expected header binds"
 )
 ASSUMPTIONS = [
     "both sides are def-shaped Signatures (no ParamSpec / Callable[..., T] ellipsis, no *args: *tuple[...] / **kwargs: Unpack[TD], no asynq)",
@@ -62,6 +72,7 @@ ASSUMPTIONS = [
     "call shapes are enumerated up to 3 positionals and 3 keywords over the parameter names of both headers plus one foreign name (the Lean theorem has no such bound)",
     "membership for the typed part: isinstance plus int->float promotion on one representative object per class",
     "override route: methods, staticmethods and properties (getter type, setter present); classmethods are not compared by pyanalyze at all (a classmethod object is not callable) and are left out, as are a property overriding a function or vice versa, deleters, and overloaded methods",
+    "obtain stream: functools.partial objects and other callables whose declared signature is typeshed's (*args: Any, **kwargs: Any) are left out; a Protocol with __call__ is not offered a bound method or a function read through the class (pyanalyze always rejects those: incomplete, not unsound); lambdas and constructors only where the expected return is unannotated",
     "route coverage is an AST scan with a receiver-name heuristic (receiver text ends in sig/signature/_bound, CallableValue(...), self inside the two can_assign methods); a route reached through a differently named local would not be listed",
 ]
 TRUSTED = [
@@ -359,7 +370,7 @@ def corpus_pairs():
             l = l.strip()
             if l:
                 d = json.loads(l)
-                if "exp" not in d:      # a class hierarchy: harness/props/c07_hier.py
+                if "exp" not in d:      # a class hierarchy (c07_hier.py) or an obtain group (c07_obtain.py)
                     continue
                 out.append(((tuple(tuple(p) for p in d["exp"]), d.get("exp_ret", "any")),
                             (tuple(tuple(p) for p in d["act"]), d.get("act_ret", "any"))))
@@ -658,7 +669,51 @@ def live_routes(repo):
     return sorted(out)
 
 
+UNWRAP_FUNCS = ["_unwrap_value_from_typed", "_get_attribute_from_mro"]
+
+
+def live_unwrap_branches(repo):
+    """The decisions attributes.py takes when it turns a class attribute into the value of `inst.attr` / `Cls.attr`:
+    for _unwrap_value_from_typed every if/elif test, for both functions every lookup primitive (getattr,
+    inspect.getattr_static, type.mro, .__dict__, .__get__) and every except clause, in source order."""
+    import ast
+    tree = ast.parse(open(os.path.join(repo, "pyanalyze", "attributes.py")).read())
+    out = []
+    for fn in tree.body:
+        if not (isinstance(fn, ast.FunctionDef) and fn.name in UNWRAP_FUNCS):
+            continue
+        items = []
+        for node in ast.walk(fn):
+            if isinstance(node, ast.If) and fn.name == "_unwrap_value_from_typed":
+                items.append((node.lineno, node.col_offset, "if", ast.unparse(node.test)))
+            elif isinstance(node, ast.ExceptHandler):
+                items.append((node.lineno, node.col_offset, "except", ast.unparse(node.type) if node.type else "bare"))
+            elif isinstance(node, ast.Call) and ast.unparse(node.func) in ("inspect.getattr_static", "getattr", "type.mro"):
+                items.append((node.lineno, node.col_offset, "lookup", ast.unparse(node)))
+            elif isinstance(node, ast.Subscript) and ast.unparse(node.value).endswith(("__dict__", "_dict")):
+                items.append((node.lineno, node.col_offset, "lookup", ast.unparse(node)))
+            elif isinstance(node, ast.Attribute) and node.attr in ("__dict__", "__get__"):
+                items.append((node.lineno, node.col_offset, "lookup", ast.unparse(node)))
+        for _, _, kind, text in sorted(items):
+            out.append((fn.name, kind, " ".join(text.split())))
+    return out
+
+
 def translate(ctx):
+    translate_routes(ctx)
+    br = live_unwrap_branches(pya.REPO)
+    esc = lambda t: t.replace("\\", "\\\\").replace('"', '\\"')
+    out = ["/-! GENERATED by harness/props/c07.py (translate) from the live /repo tree on every run. Do not edit.",
+           "Decisions of attributes.py when a class attribute becomes the value of `inst.attr` / `Cls.attr`",
+           "(function, kind, source text), in source order. -/",
+           "namespace Pya.C07", "",
+           "def liveUnwrapBranches : List (String × String × String) :=\n  [" +
+           ",\n   ".join('("%s", "%s", "%s")' % (a, b, esc(c)) for a, b, c in br) + "]", "", "end Pya.C07", ""]
+    lean.write_if_changed(os.path.join(lean.LEAN, "PyaModel", "Generated", "AttrUnwrap.lean"), "\n".join(out))
+    ctx.extra["attr_unwrap_branches"] = ["%s: %s %s" % x for x in br]
+
+
+def translate_routes(ctx):
     translate_tables(ctx)
     routes = live_routes(pya.REPO)
     out = ["/-! GENERATED by harness/props/c07.py (translate) from the live /repo tree on every run. Do not edit.",
@@ -804,16 +859,20 @@ def all_pairs(ctx):
 
 def run(ctx):
     from harness.props import c07_hier
+    from harness.props import c07_obtain
     evaluate(ctx, all_pairs(ctx))
     c07_hier.run_hier(ctx)
+    c07_obtain.run_obtain(ctx)
     overload_stream(ctx, pya.make_checker(), c05.all_sigs(3), True)
     malformed(ctx)
 
 
 def run_impl_only(ctx):
     from harness.props import c07_hier
+    from harness.props import c07_obtain
     evaluate(ctx, all_pairs(ctx), with_model=False)
     c07_hier.run_hier(ctx, with_model=False)
+    c07_obtain.run_obtain(ctx, with_model=False)
 
 
 def replay(ctx, data):
@@ -823,6 +882,13 @@ def replay(ctx, data):
         c07_hier.evaluate_hiers(ctx, [c07_hier.from_json(case["hier"])])
         print(json.dumps({"case": {"classes": case["classes"]}, "candidates": ctx.candidates, "broken": ctx.broken},
                          indent=1, default=str))
+        return 1 if (ctx.candidates or ctx.broken) else 0
+    if "how" in case:
+        from harness.props import c07_obtain
+        c07_obtain.run_obtain(ctx, pairs=[((tuple(tuple(p) for p in case["E"][0]), case["E"][1]),
+                                           (tuple(tuple(p) for p in case["A"][0]), case["A"][1]))], only=(case["how"], case["inherited_levels"]))
+        print(json.dumps({"case": {k: case[k] for k in ("expected", "def", "how", "inherited_levels")},
+                          "candidates": ctx.candidates, "broken": ctx.broken}, indent=1, default=str))
         return 1 if (ctx.candidates or ctx.broken) else 0
     if "E" not in case:
         print(json.dumps({"note": "replay file carries no pair", "data": data}, indent=1, default=str))
